@@ -9,6 +9,7 @@ import (
 	"runtime"
 	"sort"
 	"strings"
+	"sync"
 	"time"
 
 	netty "github.com/go-netty/go-netty"
@@ -57,6 +58,7 @@ type E1Case struct {
 	Stall    string       `json:"stall,omitempty"`  // "never": sender tasks are not scheduled before the final sweep
 	Futile   int          `json:"futile,omitempty"` // futile Close polls (real 100 ms sleeps) the schedule may take
 	NoSweep  bool         `json:"nosweep,omitempty"`
+	Probe    bool         `json:"probe,omitempty"` // C18: force a blocked writer on at the terminal state
 }
 
 type e1Call struct {
@@ -77,6 +79,9 @@ type e1Call struct {
 	CtxDoneThen  bool
 	ChanDoneThen bool
 	Parked       bool // the call was parked (disabled) at enqueue.before at some decision
+	Forced       bool // the terminal probe pushed the call past a full queue
+	FullAtBegin  bool // queue full when the call began
+	OpenAtBegin  bool // channel open when the call began
 }
 
 func (c *e1Call) ok() bool { return c.End != 0 && c.Err == nil && c.Panic == nil }
@@ -119,6 +124,7 @@ type e1Run struct {
 	inactive           []error
 	inactiveSeq        []int
 	exceptions         []error
+	mu                 sync.Mutex
 }
 
 // afterClosed in E1Task.After gates a task until the Close call that took effect has returned.
@@ -188,7 +194,9 @@ func (r *e1Run) hook(ch netty.Channel, where string) {
 	if t == nil {
 		return
 	}
+	r.mu.Lock() // a task pushed on by the terminal probe (C18) runs beside the scheduled one
 	r.hooks[where]++
+	r.mu.Unlock()
 	td, _ := t.Data.(*e1TaskData)
 	var pred func() bool
 	switch where {
@@ -230,6 +238,7 @@ func (r *e1Run) hook(ch netty.Channel, where string) {
 		}
 	}
 	if strings.HasPrefix(where, "close.") {
+		r.mu.Lock()
 		for _, st := range r.senders() {
 			if !st.Done() {
 				r.closeOverlapSender = true
@@ -239,6 +248,7 @@ func (r *e1Run) hook(ch netty.Channel, where string) {
 				r.closerSawSenderAt[st.Label()] = true
 			}
 		}
+		r.mu.Unlock()
 	}
 	r.s.Yield(where, pred)
 	switch where {
@@ -406,6 +416,10 @@ func (r *e1Run) doWrite(ti, oi int, op E1Op, td *e1TaskData, backing []byte) {
 	td.ctx, td.call = ctx, call
 	r.s.Yield("call.begin", nil)
 	call.Begin = r.s.Seq()
+	if st, ok := netty.VerifState(r.ch); ok {
+		call.FullAtBegin = st.Queued && st.QueueLen >= st.QueueCap
+		call.OpenAtBegin = !st.Closed
+	}
 	func() {
 		defer func() {
 			if p := recover(); p != nil {
@@ -651,9 +665,18 @@ func (r *e1Run) sweep(closeChannel bool) {
 	defer func() { e1cur = nil }()
 	r.release = true
 	r.futile = 0 // the closer continues only once the sender is quiescent
-	if err := r.s.Drain(); err != nil && r.incon == "" {
-		r.incon = "sweep: " + err.Error()
-		return
+	for i := 0; i < 50; i++ {
+		if err := r.s.Drain(); err != nil && r.incon == "" {
+			r.incon = "sweep: " + err.Error()
+			return
+		}
+		// a writer pushed into the enqueue select by the terminal probe continues on its own once there is room
+		if r.s.WaitDetached(2*time.Second) && len(r.s.EnabledTasks()) == 0 {
+			break
+		}
+		if !r.s.WaitDetached(0) && len(r.s.EnabledTasks()) == 0 {
+			break // still blocked and nothing can unblock it
+		}
 	}
 	if closeChannel {
 		for _, c := range r.liveCtx {
